@@ -15,8 +15,9 @@ import (
 
 func init() {
 	register("C15", Entry{
-		Title: "The public API is free of data races under concurrent use",
-		Run:   runC15,
+		Title:    "The public API is free of data races under concurrent use",
+		Run:      runC15,
+		Examples: true,
 		Meta: core.PropertyMeta{
 			Explanation: "Lockset/ownership discipline for every piece of library state that more than one goroutine root can reach. The shared-state table (inferred from access statistics, every row confirmed by reading, frozen in the checker with a reason) assigns each field one discipline: guarded-by a named mutex (every read under any hold, every write under a write hold; closures and goroutines start with the empty lock state), accessed only through sync/atomic, write-once before publication (every store targets the freshly allocated object in its constructor before the go statement / pool insertion that publishes it, or lies in a listed initialiser whose only callers precede publication), guarded-or-write-once (RawNode.conn), and no-escape for guarded slices/maps (never returned or stored without a copy). For the fields in the table a violated row *is* an unsynchronised pair of accesses that public-API use can overlap. Further rows: Async/Correctable protocols (C02-T6, C11-K6 re-run), operand slices of configuration options are never written (C14-G4 re-run), stream handlers that can send more than once clone the metadata (generated code), the shared request is never written after construction.",
 			NotDecided:  "Races inside user handlers/quorum functions, gRPC, protobuf; memory outside the table; orderings established by means the table does not model (none found). A clean table is necessary, not sufficient.",
